@@ -1,6 +1,6 @@
-"""C09 bounded stand-in for the triangulation (mut_arrays_remaining_elements / create_fx_array): the deterministic probe of
-replay/src/probe_fx.rs is run on the REAL compiled code on every check.  It is exploration with a stated bound, never
-counted as proved: the obligations it contributes carry tier "Kb"-like status `bounded`."""
+"""Bounded stand-in engine: a deterministic probe of the replay crate (replay/src/probe_*.rs) is run on the REAL compiled code
+on every check of the property.  It is exploration with a stated bound, never counted as proved: the obligation it
+contributes has status `bounded-ok` (or `failed` with the counterexample).  Parameters come from config.CHECKS[pid]["probe"]."""
 import json
 import os
 import subprocess
@@ -11,6 +11,8 @@ REPLAY_BIN = os.path.join(ROOT, ".cache", "target-replay", "release", "vx-replay
 
 
 def run(pid, tier, seed):
+    from vxlib import config
+    pc = config.CHECKS[pid]["probe"]
     out = {"obligations": [], "violations": [], "undecided": [], "cmds": [], "trusted": [], "solver_s": {}, "guards": {}, "coverage": {}, "samples": []}
     t0 = time.time()
     env = dict(os.environ, CARGO_NET_OFFLINE="true", VERIF_TIER=tier)
@@ -18,7 +20,7 @@ def run(pid, tier, seed):
     if b.returncode != 0:
         out["undecided"].append("replay crate does not build against /repo: " + b.stderr[-600:])
         return out
-    cmd = [REPLAY_BIN, "probe", "create_fx_array"]
+    cmd = [REPLAY_BIN, "probe", pc["func"]]
     out["cmds"].append("VERIF_TIER=%s %s" % (tier, " ".join(cmd)))
     try:
         p = subprocess.run(cmd, capture_output=True, text=True, timeout=1800, env=env)
@@ -33,31 +35,30 @@ def run(pid, tier, seed):
                 rec = json.loads(line)
             except Exception:  # noqa
                 pass
-    nmax = 12 if tier == "thorough" else 8
-    bound = f"quote trees on 2..{nmax} currencies: chain, star, binary, interleaved, irregular, caterpillar shapes; every orientation of every quote for n <= 7 (5 patterns above); up to 4 rotations of the quote list; 4 base choices; 9 degenerate quote sets; update / order histories of 10 steps on 2..5 currencies"
+    bound = pc["bound_thorough"] if tier == "thorough" and pc.get("bound_thorough") else pc["bound"]
     if rec is None:
         out["undecided"].append("probe produced no result (crashed?): " + (p.stderr[-400:] or p.stdout[-400:]))
         return out
-    name = "c09::triangulation_probe (bounded)"
+    name = pc["name"]
     if rec.get("holds") is False:
         out["obligations"].append({"name": name, "backend": "native-exec", "tier": "Kb", "status": "failed", "ms": int((time.time() - t0) * 1000), "bound": bound})
-        out["violations"].append({"obligation": name, "kind": "bounded probe on the real code found a counterexample", "where": "rust/fx/rates/mod.rs", "code": "",
-                                  "verifier_output": "", "counterexample": rec, "item": None, "unit": "c09", "bounded": True})
+        out["violations"].append({"obligation": name, "kind": "bounded probe on the real code found a counterexample", "where": pc.get("where", ""), "code": "",
+                                  "verifier_output": "", "counterexample": rec, "item": None, "unit": "probe", "bounded": True})
     else:
         ev = int(rec.get("evaluations", 0))
         cases = int(rec.get("cases", 0))
-        out["guards"]["c09 probe explored a non-empty set of markets"] = cases > 0
-        if cases == 0:
+        out["guards"]["probe explored a non-empty set of cases"] = (cases > 0 or ev > 0)
+        if cases == 0 and ev == 0:
             out["undecided"].append("probe explored nothing (vacuous)")
         out["obligations"].append({"name": name, "backend": "native-exec", "tier": "Kb", "status": "bounded-ok", "ms": int((time.time() - t0) * 1000), "bound": bound})
         out["coverage"] = {
             "evaluations": ev,
             "distinct_nontrivial": cases,
-            "rule": "evaluations = cross rates (and, at first order, sensitivities) compared with the path-product oracle on the quote tree; a case is one (tree shape, orientation mask, quote order, base) market or one history step, all distinct by construction; every case has >= 2 currencies so no case is trivial",
+            "rule": pc["rule"],
             "exhaustive": False,
-            "bounded": [{"harness": "probe::create_fx_array", "bound": bound, "status": "no counterexample", "what": "stand-in for mut_arrays_remaining_elements / create_fx_array, which are outside the verifier's reach (recursion over sum_axis / zip / filter / max_by_key / itertools::combinations / HashSet)"}],
+            "bounded": [{"harness": "probe::" + pc["func"], "bound": bound, "status": "no counterexample", "what": pc["what"]}],
         }
         out["samples"].append(rec.get("sample", ""))
     out["solver_s"]["native-exec"] = time.time() - t0
-    out["trusted"].append("replay/src/probe_fx.rs: the oracle (path product on the quote tree found by breadth-first search) is written from the property text; rustc codegen")
+    out["trusted"].append(pc.get("trusted", "replay/src/probe_*.rs oracle written from the property text; rustc codegen"))
     return out
